@@ -54,7 +54,7 @@ void drv_corners_z(int tier, unsigned long seed, const char *extra) {
 
 static void setf_limbs(int i, const mp_limb_t *p, int n, int neg, long exp) { char *h = hex_of_limbs(p, n, neg); callf("drv_setf", i, h, (int64_t)exp); free(h); }
 void drv_corners_f(int tier, unsigned long seed, const char *extra) {
-  shard_t sh = shard_parse(extra); int na = sh.pure ? 3 : 4, maxl = sh.pure ? 2 : 3; long N = count_operands(na, maxl), a, b, x = 0; int j, pd;
+  shard_t sh = shard_parse(extra); int na = sh.pure ? 3 : 4, maxl = sh.pure ? 2 : (tier ? 4 : 3); long N = count_operands(na, maxl), a, b, x = 0; int j, pd;      /* thorough: operands up to two limbs longer than the destination holds */
   static const uint64_t us[] = {1, 2, (uint64_t)1 << 63, ~(uint64_t)0, 3};
   for (pd = 0; pd < (sh.pure ? 1 : 2); pd++) for (a = 0; a < N; a++) {
     mp_limb_t ua[4], ub[4]; int la, lb, sb, ed;
@@ -66,7 +66,7 @@ void drv_corners_f(int tier, unsigned long seed, const char *extra) {
     la = nth_operand(a, na, maxl, ua);
     for (b = 0; b < N; b++) {
       lb = nth_operand(b, na, maxl, ub);
-      if (!tier && !sh.pure && (a + b) % 3) continue;          /* quick: every third pair */
+      if (!sh.pure && (a + b) % 3 && (!tier || maxl == 4)) continue;          /* every third pair (quick; thorough at the 4-limb alphabet) */
       for (ed = -1; ed <= 3; ed++) for (sb = 0; sb < 2; sb++) {
         setf_limbs(0, ua, la, 0, 2); setf_limbs(1, ub, lb, sb, 2 - ed);
         callf("mpf_sub", 2, 0, 1); callf("mpf_add", 2, 0, 1);
